@@ -419,6 +419,23 @@ def directed_refusals(ctx):
         for vop, cause in cand:
             for pos in (len(base), len(base) - 1):
                 judge(ctx, cfg, base, res, h0, pos, vop, 'directed/' + cause)
+        # boot files El Torito cannot describe: no data (empty file, symbolic link), or more 512-byte sectors than the
+        # 16-bit count of a catalog entry holds
+        eb = base + [{'op': 'addfp', 'cid': 7, 'n': 0, 'iso': '/EMPTYB.;1', **({'rr': 'emptyb'} if cfg.get('rr') else {})}]
+        if cfg.get('rr'):
+            eb.append({'op': 'addsym', 'iso': '/SYMB.;1', 'rr': 'symb', 'target': 'z'})
+        img3, res3, err3 = image_of(cfg, eb)
+        if not err3 and all(r == 'ok' for r in res3):
+            h3 = hashlib.sha256(img3).hexdigest()
+            for vop, cause in [({'op': 'eltorito', 'boot': '/EMPTYB.;1', 'kw': {}}, 'eltorito/empty-boot-file'),
+                               ({'op': 'eltorito', 'boot': '/Z.;1', 'kw': {'boot_load_size': 70000}}, 'eltorito/sector-count-over-16-bits')] + (
+                                   [({'op': 'eltorito', 'boot': '/SYMB.;1', 'kw': {}}, 'eltorito/symlink-boot-file')] if cfg.get('rr') else []):
+                judge(ctx, cfg, eb, res3, h3, len(eb), vop, 'directed/' + cause)
+                # if it was accepted after all, the image must at least be writable and open again
+                img4, res4, err4 = image_of(cfg, eb + [vop])
+                if res4[-1] == 'ok' and err4:
+                    ctx.violation('C14.accepted-then-unwritable/%s' % cause, 'add_eltorito(%s) was accepted, then the write fails: %s' % (histcheck.short(vop), err4),
+                                  {'kind': 'history', 'cfg': cfg, 'ops': eb + [vop], 'pos': len(eb), 'cause': cause})
         # with UDF the volume descriptors have to fit in front of extent 32: once they fill that room, one more copy of
         # the PVD must be refused (and change nothing), not accepted and then fail at write time
         full = None
